@@ -5,7 +5,13 @@ builds: set_source()+compile(), ffi.verify() with the CPython engine, and
 ffi.verify(force_generic_engine=True).  Compared on the same inputs: the set
 of exposed names, constants and enumerators, struct layouts, function results
 or exception classes (in-range, out-of-range and wrongly typed arguments),
-global reads/writes.
+global reads/writes (extras / extras2: a second and third declaration block with the
+features the C12 generator lacks, among them enum-typed arguments and results, errno
+round trips, '[...]' global arrays, pointer / struct constants, a cdef(packed=True)
+struct).  Per pair also a build-history scenario on a small source (run_history):
+verify() after an earlier verify() of the same source with another cdef in the same
+tmpdir, with define_macros=, repeated with identical inputs from a new FFI (served
+from the compiled module already in tmpdir), and through modulename= / tag=.
 """
 import os, sys, random
 from vlib import core
@@ -14,11 +20,16 @@ from props import c33gen as c12
 VARIANT = 'plain'
 RULE = ("case = one declared item (struct layout, constant, enumerator, function x argument "
         "tuple, global) of a generated (cdef, C source) pair, compared across set_source/"
-        "compile, verify() with the CPython engine and verify() with the generic engine; "
+        "compile, verify() with the CPython engine and verify() with the generic engine, or one "
+        "step of the verify() build-history scenario (earlier cdef in the same tmpdir / define_macros= "
+        "/ repeated identical inputs / modulename= or tag=) against the set_source build of the same inputs; "
         "distinct = (item, inputs); non-trivial = function calls with arguments, structs with "
         ">= 2 fields, globals")
 ASSUMPTIONS = ["the pairs use only features verify() supports (no 'typedef int...', no extern \"Python\")",
-               "exception classes are compared, not messages"]
+               "exception classes are compared, not messages",
+               "assigning to constants / functions of the library is not compared (the verify() library "
+               "is a plain Python object)",
+               "the history scenario runs one engine per case (alternating), both engines over a run"]
 
 
 INT_T = [('signed char', 1, 1), ('short', 2, 1), ('int', 4, 1), ('long long', 8, 1),
@@ -220,6 +231,387 @@ _Bool %(u)s_not(_Bool b);
     return cdef, src, P
 
 
+def extras2(seed):
+    """A third declaration block: enum-typed arguments and results (unsigned-,
+    negative- and long-valued enums, anonymous / typedef'd / trailing-'...' enums),
+    char / wchar_t / float / pointer / function-pointer results, errno round trips,
+    global arrays of unknown length ('[...]' and '[]'), pointer / struct / valueless
+    integer constants, hex / octal / suffixed / negative '#define's, nested structs,
+    named partial structs with '[...]' fields, flexible array members, a struct
+    declared in a cdef(packed=True), pointer / struct / float / bool global writes.
+    Returns (cdef, packed cdef, C source, probes)."""
+    rnd = random.Random(seed ^ 0x5e5e1)
+    u = 'y%d' % (seed % 1000)
+    TA, TB = rnd.choice(INT_T), rnd.choice(INT_T)
+    na = rnd.choice([1, 3, 4, 7])
+    ebig = rnd.choice([2 ** 31, 2 ** 32 - 1, 2 ** 31 + rnd.randint(1, 10 ** 6)])
+    eneg = rnd.choice([-1, -2 ** 31, -rnd.randint(2, 10 ** 6)])
+    elong = rnd.choice([2 ** 32, 2 ** 63 - 1, -2 ** 31 - 1, 2 ** 40 + rnd.randint(0, 999), -2 ** 63 + 1])
+    kpc = rnd.randint(3, 90)
+    hexv = rnd.choice([0xff, 0x7fffffff, 0x80000000, 0xffffffff, rnd.getrandbits(31)])
+    octv = rnd.randint(8, 4000)
+    sufv = rnd.choice([2 ** 63, 2 ** 64 - 1, 2 ** 63 + rnd.getrandbits(40)])
+    negv = -rnd.randint(1, 2 ** 31)
+    kull = rnd.choice([2 ** 64 - 1, 2 ** 63, rnd.getrandbits(64) | 2 ** 63])
+    kll = rnd.choice([-2 ** 63 + 1, -1, -rnd.getrandbits(50)])
+    flt = rnd.choice([0.25, -1.5, 1024.0])
+    d = {'u': u, 'TA': TA[0], 'TB': TB[0], 'na': na, 'na1': na + 1, 'na2': na + 2, 'ebig': ebig,
+         'eneg': eneg, 'elong': elong, 'kpc': kpc, 'hexv': hexv, 'octv': octv, 'sufv': sufv,
+         'negv': negv, 'kull': kull, 'kll': kll, 'flt': flt,
+         'ainit': ', '.join(str(i + 1) for i in range(na))}
+    src = """
+#include <errno.h>
+enum %(u)s_ebig { %(u)s_BA = 1, %(u)s_BB = %(ebig)dU };
+enum %(u)s_ebig %(u)s_enext(enum %(u)s_ebig e) { return e == %(u)s_BA ? %(u)s_BB : %(u)s_BA; }
+enum %(u)s_eneg { %(u)s_NA = %(eneg)d, %(u)s_NB = 5 };
+enum %(u)s_eneg %(u)s_eflip(enum %(u)s_eneg e) { return e == %(u)s_NA ? %(u)s_NB : %(u)s_NA; }
+enum %(u)s_elong { %(u)s_LA = 0, %(u)s_LB = %(elong)dLL };
+enum %(u)s_elong %(u)s_lnext(enum %(u)s_elong e) { return e == %(u)s_LA ? %(u)s_LB : %(u)s_LA; }
+typedef enum { %(u)s_TA, %(u)s_TB = 7 } %(u)s_tenum_t;
+%(u)s_tenum_t %(u)s_tnext(%(u)s_tenum_t e) { return e == %(u)s_TA ? %(u)s_TB : %(u)s_TA; }
+enum { %(u)s_AN1 = 11, %(u)s_AN2 };
+enum %(u)s_epart { %(u)s_PA, %(u)s_PB, %(u)s_PC = %(kpc)d };
+int %(u)s_pval(enum %(u)s_epart e) { return (int)e * 2; }
+char %(u)s_chr(char c) { return (char)(c ^ 1); }
+wchar_t %(u)s_wch(wchar_t c) { return c + 1; }
+float %(u)s_flt(float x) { return x * 2; }
+void *%(u)s_vp(void *p) { return (char *)p + 1; }
+int *%(u)s_ip(int *p, int k) { return p + k; }
+static int %(u)s_sub(int a, int b) { return a - b * 2; }
+int (*%(u)s_getfn(int which))(int, int) { return which ? %(u)s_sub : 0; }
+int %(u)s_errset(int v) { errno = v; return v + 1; }
+int %(u)s_errget(void) { return errno; }
+%(TA)s %(u)s_uarr[%(na)d] = { %(ainit)s };
+%(TA)s %(u)s_oarr[%(na1)d] = { 9, %(ainit)s };
+static char *const %(u)s_KS = "const-%(kpc)d";
+struct %(u)s_in { short s; %(TA)s t; };
+static const struct %(u)s_in %(u)s_KIN = { 7, 1 };
+static const unsigned long long %(u)s_KULL = %(kull)dULL;
+static const long long %(u)s_KLL = %(kll)dLL;
+static const float %(u)s_KF = %(flt)rf;
+#define %(u)s_HEX 0x%(hexv)x
+#define %(u)s_OCT 0%(octv)o
+#define %(u)s_SUF %(sufv)dULL
+#define %(u)s_NEG %(negv)d
+struct %(u)s_out { char c; struct %(u)s_in in; struct %(u)s_in arr[2]; struct %(u)s_in *pin;
+                  int (*fp)(int, int); %(TB)s *pb; %(TA)s tail[]; };
+long long %(u)s_outsum(struct %(u)s_out *o, int n) { long long s = o->c + o->in.s + o->arr[1].t; int i;
+    if (o->pin) s += o->pin->s * 100; if (o->fp) s += o->fp(2, 3);
+    for (i = 0; i < n; i++) s += (long long)o->tail[i]; return s; }
+struct %(u)s_np { char c0; long long hidden; %(TA)s v; char buf[%(na2)d]; double hidden2; };
+void %(u)s_npfill(struct %(u)s_np *p) { memset(p, 0, sizeof(*p)); p->v = 1; p->buf[%(na)d] = 'z'; }
+int %(u)s_npsize(void) { return (int)sizeof(struct %(u)s_np); }
+#pragma pack(push, 1)
+struct %(u)s_pk { char a; %(TA)s b; short c; double d; };
+#pragma pack(pop)
+long long %(u)s_pkget(struct %(u)s_pk *p) { return (long long)p->b * 3 + p->c; }
+int %(u)s_pksize(void) { return (int)sizeof(struct %(u)s_pk); }
+char *%(u)s_gptr = 0;
+char %(u)s_gbuf[8] = "gbuf";
+int %(u)s_gptr_is_buf(void) { return %(u)s_gptr == %(u)s_gbuf + 1; }
+struct %(u)s_in %(u)s_gin = { 1, 2 };
+long long %(u)s_ginsum(void) { return %(u)s_gin.s * 1000 + (long long)%(u)s_gin.t; }
+float %(u)s_gflt = 1.5f;
+_Bool %(u)s_gbool = 0;
+double %(u)s_gsum(void) { return %(u)s_gflt * 2 + %(u)s_gbool; }
+""" % d
+    pcdef = "struct %(u)s_pk { char a; %(TA)s b; short c; double d; };\n" % d
+    cdef = """
+enum %(u)s_ebig { %(u)s_BA = 1, %(u)s_BB = %(ebig)d };
+enum %(u)s_ebig %(u)s_enext(enum %(u)s_ebig e);
+enum %(u)s_eneg { %(u)s_NA = %(eneg)d, %(u)s_NB = 5 };
+enum %(u)s_eneg %(u)s_eflip(enum %(u)s_eneg e);
+enum %(u)s_elong { %(u)s_LA = 0, %(u)s_LB = %(elong)d };
+enum %(u)s_elong %(u)s_lnext(enum %(u)s_elong e);
+typedef enum { %(u)s_TA, %(u)s_TB = 7 } %(u)s_tenum_t;
+%(u)s_tenum_t %(u)s_tnext(%(u)s_tenum_t e);
+enum { %(u)s_AN1 = 11, %(u)s_AN2 };
+enum %(u)s_epart { %(u)s_PA, %(u)s_PB, ... };
+int %(u)s_pval(enum %(u)s_epart e);
+char %(u)s_chr(char c);
+wchar_t %(u)s_wch(wchar_t c);
+float %(u)s_flt(float x);
+void *%(u)s_vp(void *p);
+int *%(u)s_ip(int *p, int k);
+int (*%(u)s_getfn(int which))(int, int);
+int %(u)s_errset(int v);
+int %(u)s_errget(void);
+%(TA)s %(u)s_uarr[...];
+%(TA)s %(u)s_oarr[];
+static char *const %(u)s_KS;
+struct %(u)s_in { short s; %(TA)s t; };
+static const struct %(u)s_in %(u)s_KIN;
+static const unsigned long long %(u)s_KULL;
+static const long long %(u)s_KLL;
+static const float %(u)s_KF;
+#define %(u)s_HEX 0x%(hexv)x
+#define %(u)s_OCT 0%(octv)o
+#define %(u)s_SUF %(sufv)dULL
+#define %(u)s_NEG %(negv)d
+struct %(u)s_out { char c; struct %(u)s_in in; struct %(u)s_in arr[2]; struct %(u)s_in *pin;
+                  int (*fp)(int, int); %(TB)s *pb; %(TA)s tail[]; };
+long long %(u)s_outsum(struct %(u)s_out *o, int n);
+struct %(u)s_np { %(TA)s v; char buf[...]; ...; };
+void %(u)s_npfill(struct %(u)s_np *p);
+int %(u)s_npsize(void);
+long long %(u)s_pkget(struct %(u)s_pk *p);
+int %(u)s_pksize(void);
+char *%(u)s_gptr;
+char %(u)s_gbuf[8];
+int %(u)s_gptr_is_buf(void);
+struct %(u)s_in %(u)s_gin;
+long long %(u)s_ginsum(void);
+float %(u)s_gflt;
+_Bool %(u)s_gbool;
+double %(u)s_gsum(void);
+""" % d
+
+    def rng_of(T):
+        return (-(1 << (8 * T[1] - 1)), (1 << (8 * T[1] - 1)) - 1) if T[2] else (0, (1 << 8 * T[1]) - 1)
+    r = random.Random(seed ^ 0x2222)
+    lo, hi = rng_of(TA)
+    av = r.choice([lo, hi, r.randint(lo, hi)])
+    tailv = [r.choice([lo, hi, 0, r.randint(lo, hi)]) for _ in range(r.randint(0, 4))]
+    ev = r.choice([1, 2, 34, 95, 4095])
+    ch = bytes([r.randrange(256)])
+    wc = r.choice([u'a', u'ሴ', u'\U0001f600', u'\x00'])
+    fv = r.choice([0.5, 3.0, 1e30, 1e300, -1e300, float('inf')])
+    P = []
+    g = lambda l, nm: getattr(l, u + '_' + nm)
+    fields = lambda f, T: [(n_, fl.offset, fl.type.cname, fl.bitsize, fl.bitshift)
+                           for n_, fl in f.typeof(T).fields]
+    en = lambda f, T: (lambda t: (f.sizeof(t), sorted(t.relements.items()), t.cname,
+                                  int(f.cast(t, -1))))(f.typeof(T))
+    for nm, fn_, a, b in (('ebig', 'enext', 'BA', 'BB'), ('eneg', 'eflip', 'NA', 'NB'),
+                          ('elong', 'lnext', 'LA', 'LB')):
+        P.append(('enum-type:' + nm, lambda f, l, nm=nm: en(f, 'enum %s_%s' % (u, nm))))
+        P.append(('enum-result:' + nm, lambda f, l, fn_=fn_, a=a, b=b:
+                  (g(l, fn_)(g(l, a)), g(l, fn_)(g(l, b)), g(l, a), g(l, b))))
+        P.append(('enum-arg-name-string:' + nm, lambda f, l, fn_=fn_, a=a: g(l, fn_)(u + '_' + a)))
+        P.append(('enum-arg-undeclared-value:' + nm, lambda f, l, fn_=fn_: g(l, fn_)(3)))
+        P.append(('enum-arg-out-of-range:' + nm, lambda f, l, fn_=fn_: g(l, fn_)(2 ** 64)))
+        P.append(('enum-arg-out-of-range-negative:' + nm, lambda f, l, fn_=fn_: g(l, fn_)(-2 ** 63 - 1)))
+        P.append(('enum-arg-cdata:' + nm, lambda f, l, fn_=fn_, nm=nm, b=b:
+                  g(l, fn_)(f.cast('enum %s_%s' % (u, nm), g(l, b)))))
+        P.append(('enum-arg-wrong-type:' + nm, lambda f, l, fn_=fn_: g(l, fn_)(1.0)))
+    P.append(('enum-typedef-anonymous', lambda f, l: (en(f, u + '_tenum_t'), g(l, 'tnext')(0), g(l, 'tnext')(7),
+                                                       g(l, 'TA'), g(l, 'TB'))))
+    P.append(('enum-anonymous-enumerators', lambda f, l: (g(l, 'AN1'), g(l, 'AN2'))))
+    P.append(('enum-trailing-dotdotdot', lambda f, l: (en(f, 'enum %s_epart' % u), g(l, 'PA'), g(l, 'PB'),
+                                                        g(l, 'pval')(g(l, 'PB')), g(l, 'pval')(ev))))
+    P.append(('enum-trailing-dotdotdot-hidden-enumerator', lambda f, l: g(l, 'PC')))
+    P.append(('char-arg-result', lambda f, l: g(l, 'chr')(ch)))
+    P.append(('char-arg-int', lambda f, l: g(l, 'chr')(65)))
+    P.append(('char-arg-two-bytes', lambda f, l: g(l, 'chr')(b'ab')))
+    P.append(('char-arg-str', lambda f, l: g(l, 'chr')('a')))
+    P.append(('wchar-arg-result', lambda f, l: g(l, 'wch')(wc)))
+    P.append(('wchar-arg-bytes-for-char', lambda f, l: g(l, 'wch')(b'a')))
+    P.append(('wchar-arg-two-chars', lambda f, l: g(l, 'wch')(u'ab')))
+    P.append(('float-arg-result', lambda f, l: repr(g(l, 'flt')(fv))))
+    P.append(('float-arg-nan', lambda f, l: repr(g(l, 'flt')(float('nan')))))
+    P.append(('float-arg-int', lambda f, l: g(l, 'flt')(3)))
+    P.append(('float-arg-index-object', lambda f, l: g(l, 'flt')(f.cast('int', 3))))
+    P.append(('float-arg-float-cdata', lambda f, l: g(l, 'flt')(f.cast('double', 1.5))))
+    P.append(('int-arg-int-cdata', lambda f, l: g(l, 'errset')(f.cast('short', 9))))
+    P.append(('int-arg-float-cdata', lambda f, l: g(l, 'errset')(f.cast('double', 9.0))))
+    P.append(('int-arg-bool', lambda f, l: g(l, 'errset')(True)))
+    P.append(('void-pointer-arg-result', lambda f, l: (lambda b: (f.typeof(g(l, 'vp')(b)).cname,
+              g(l, 'vp')(b) == f.cast('void *', b + 1), g(l, 'vp')(f.NULL) == f.cast('void *', 1)))(f.new('char[]', 4))))
+    P.append(('void-pointer-arg-other-pointer', lambda f, l: f.typeof(g(l, 'vp')(f.new('struct %s_in *' % u))).cname))
+    P.append(('void-pointer-arg-bytes', lambda f, l: f.typeof(g(l, 'vp')(b'xy')).cname))
+    P.append(('void-pointer-arg-int', lambda f, l: g(l, 'vp')(5)))
+    P.append(('void-pointer-arg-from-buffer', lambda f, l: (lambda ba: g(l, 'vp')(f.from_buffer(ba)) ==
+              f.cast('void *', f.from_buffer(ba)) + 1)(bytearray(b'abcd'))))
+    P.append(('int-pointer-result', lambda f, l: (lambda a: (g(l, 'ip')(a, 2)[0], f.typeof(g(l, 'ip')(a, 1)).cname,
+              g(l, 'ip')(a, 0) == a))(f.new('int[]', [5, 6, 7]))))
+    P.append(('int-pointer-arg-char-pointer', lambda f, l: g(l, 'ip')(f.new('char[]', 8), 0)))
+    P.append(('int-pointer-arg-void-pointer', lambda f, l: f.typeof(g(l, 'ip')(f.cast('void *', 0), 0)).cname))
+    P.append(('function-pointer-result', lambda f, l: (lambda fp: (f.typeof(fp).cname, fp(10, 3),
+              g(l, 'getfn')(0) == f.NULL))(g(l, 'getfn')(1))))
+    P.append(('errno-set-by-call', lambda f, l: (setattr(f, 'errno', 0), g(l, 'errset')(ev), f.errno)[1:]))
+    P.append(('errno-seen-by-call', lambda f, l: (setattr(f, 'errno', ev + 1), g(l, 'errget')())[1]))
+    P.append(('errno-kept-across-calls', lambda f, l: (setattr(f, 'errno', 0), g(l, 'errset')(ev + 2),
+                                                        g(l, 'errget')(), f.errno)[1:]))
+    P.append(('global-array-dotdotdot-length', lambda f, l: (lambda a: (f.typeof(a).cname, len(a), a[0], a[na - 1],
+              f.sizeof(a)))(g(l, 'uarr'))))
+    P.append(('global-array-dotdotdot-write', lambda f, l: (lambda a: (a.__setitem__(na - 1, av), a[na - 1],
+              a.__setitem__(na - 1, na))[1])(g(l, 'uarr'))))
+    P.append(('global-array-dotdotdot-index-out-of-range', lambda f, l: g(l, 'uarr')[na]))
+    P.append(('global-array-open-length', lambda f, l: (lambda a: (a[0], a[na]))(g(l, 'oarr'))))
+    P.append(('global-array-open-length-type', lambda f, l: f.typeof(g(l, 'oarr')).kind))
+    P.append(('pointer-constant', lambda f, l: (f.typeof(g(l, 'KS')).cname, f.string(g(l, 'KS')))))
+    # not probed: assigning to a constant (the verify() library is a plain Python object)
+    P.append(('struct-constant', lambda f, l: (f.typeof(g(l, 'KIN')).cname, g(l, 'KIN').s, g(l, 'KIN').t)))
+    P.append(('valueless-integer-constants', lambda f, l: (g(l, 'KULL'), g(l, 'KLL'))))
+    P.append(('float-constant', lambda f, l: g(l, 'KF')))
+    P.append(('define-hex-octal-suffix-negative', lambda f, l: (g(l, 'HEX'), g(l, 'OCT'), g(l, 'SUF'), g(l, 'NEG'))))
+    P.append(('nested-struct-layout', lambda f, l: (f.sizeof('struct %s_out' % u), f.alignof('struct %s_out' % u),
+                                                   fields(f, 'struct %s_out' % u), fields(f, 'struct %s_in' % u))))
+    P.append(('nested-struct-flexible-array-use', lambda f, l: (lambda i_, cb: (lambda o: g(l, 'outsum')(o, len(tailv)))(
+        f.new('struct %s_out *' % u, {'c': b'\x03', 'in': {'s': -4}, 'arr': [{}, {'t': av}], 'pin': i_, 'fp': cb,
+                                       'tail': tailv})))(f.new('struct %s_in *' % u, [7, 0]),
+                                                         f.callback('int(int, int)', lambda a, b: a * b))))
+    P.append(('nested-struct-flexible-array-size', lambda f, l: f.sizeof(f.new('struct %s_out *' % u, {'tail': 3})[0])))
+    P.append(('named-partial-struct-layout', lambda f, l: (f.sizeof('struct %s_np' % u), g(l, 'npsize')(),
+                                                          f.alignof('struct %s_np' % u), fields(f, 'struct %s_np' % u))))
+    P.append(('named-partial-struct-use', lambda f, l: (lambda p: (g(l, 'npfill')(p), p.v, len(p.buf), p.buf[na],
+                                                                   f.typeof(p.buf).cname)[1:])(f.new('struct %s_np *' % u))))
+    P.append(('named-partial-struct-array-field-out-of-range', lambda f, l: f.new('struct %s_np *' % u).buf[na + 2]))
+    P.append(('packed-struct-layout', lambda f, l: (f.sizeof('struct %s_pk' % u), g(l, 'pksize')(),
+                                                    f.alignof('struct %s_pk' % u), fields(f, 'struct %s_pk' % u))))
+    P.append(('packed-struct-use', lambda f, l: g(l, 'pkget')(f.new('struct %s_pk *' % u, {'b': av, 'c': -3}))))
+    P.append(('global-pointer-write', lambda f, l: (g(l, 'gptr') == f.NULL, setattr(l, u + '_gptr', g(l, 'gbuf') + 1),
+              g(l, 'gptr_is_buf')(), f.string(g(l, 'gptr')), f.typeof(g(l, 'gptr')).cname,
+              setattr(l, u + '_gptr', f.NULL))[:-1]))
+    P.append(('global-pointer-write-wrong-type', lambda f, l: setattr(l, u + '_gptr', f.new('int *'))))
+    P.append(('global-pointer-write-int', lambda f, l: setattr(l, u + '_gptr', 5)))
+    P.append(('global-struct-assign', lambda f, l: (setattr(l, u + '_gin', f.new('struct %s_in *' % u, [3, av])[0]),
+              g(l, 'ginsum')(), setattr(l, u + '_gin', {'s': 1, 't': 2}), g(l, 'ginsum')())))
+    P.append(('global-struct-assign-wrong-type', lambda f, l: setattr(l, u + '_gin', 5)))
+    P.append(('global-float-bool-write', lambda f, l: (setattr(l, u + '_gflt', 0.1), setattr(l, u + '_gbool', True),
+              g(l, 'gsum')(), g(l, 'gflt'), g(l, 'gbool'), setattr(l, u + '_gflt', 1.5),
+              setattr(l, u + '_gbool', False))[:-2]))
+    P.append(('global-bool-write-out-of-range', lambda f, l: setattr(l, u + '_gbool', 2)))
+    P.append(('global-float-write-wrong-type', lambda f, l: setattr(l, u + '_gflt', 'x')))
+    return cdef, pcdef, src, P
+
+
+def history(seed):
+    """A small (cdef, C source) pair for the build-history scenario: the source
+    reads the macro C33ALT (given through define_macros=) and the judged cdef has a
+    sibling cdef (the 'earlier' one) declaring less of the same source.
+    Returns (earlier cdef, cdef, C source, observe(ffi, lib) -> comparable)."""
+    rnd = random.Random(seed ^ 0x415)
+    u = 'h%d' % (seed % 1000)
+    T = rnd.choice(INT_T)
+    k, kalt = rnd.sample(range(2, 200), 2)
+    pad = rnd.choice([1, 3, 9])
+    d = {'u': u, 'T': T[0], 'k': k, 'kalt': kalt, 'pad': pad}
+    src = """
+#include <stdint.h>
+#include <stddef.h>
+#ifdef C33ALT
+# define %(u)s_K %(kalt)d
+struct %(u)s_s { char pad[%(pad)d]; %(T)s v; double d; };
+#else
+# define %(u)s_K %(k)d
+struct %(u)s_s { %(T)s v; char pad; };
+#endif
+enum %(u)s_e { %(u)s_EA = %(u)s_K + 1, %(u)s_EB };
+%(T)s %(u)s_get(struct %(u)s_s *p) { return p->v; }
+long long %(u)s_f(int x) { return (long long)x * %(u)s_K; }
+long long %(u)s_g(int x) { return (long long)x - %(u)s_K; }
+%(T)s %(u)s_glob = 5;
+""" % d
+    decls = ["#define %(u)s_K ...", "struct %(u)s_s { %(T)s v; ...; };",
+             "enum %(u)s_e { %(u)s_EA = ..., %(u)s_EB };", "%(T)s %(u)s_get(struct %(u)s_s *p);",
+             "long long %(u)s_f(int x);", "long long %(u)s_g(int x);", "%(T)s %(u)s_glob;"]
+    cdef = '\n'.join(decls) % d + '\n'
+    # the earlier cdef: one declaration dropped, or the struct left opaque
+    how = rnd.choice(['drop-function', 'drop-global', 'drop-macro', 'opaque-struct', 'drop-enum'])
+    early = list(decls)
+    if how == 'opaque-struct':
+        early[1] = "struct %(u)s_s;"
+    else:
+        del early[{'drop-function': 5, 'drop-global': 6, 'drop-macro': 0, 'drop-enum': 2}[how]]
+    early = '\n'.join(early) % d + '\n'
+    lo, hi = (-(1 << (8 * T[1] - 1)), (1 << (8 * T[1] - 1)) - 1) if T[2] else (0, (1 << 8 * T[1]) - 1)
+    v = rnd.choice([lo, hi, rnd.randint(lo, hi)])
+    x = rnd.randint(-10 ** 6, 10 ** 6)
+
+    def observe(f, l):
+        out = []
+        S = 'struct %s_s' % u
+        for fn in (lambda: getattr(l, u + '_K'), lambda: (getattr(l, u + '_EA'), getattr(l, u + '_EB')),
+                   lambda: sorted(f.typeof('enum %s_e' % u).relements.items()),
+                   lambda: (f.sizeof(S), f.alignof(S), f.offsetof(S, 'v')),
+                   lambda: getattr(l, u + '_get')(f.new(S + ' *', {'v': v})),
+                   lambda: getattr(l, u + '_get')(f.new('int *')),
+                   lambda: getattr(l, u + '_f')(x), lambda: getattr(l, u + '_g')(x),
+                   lambda: getattr(l, u + '_f')('bad'), lambda: getattr(l, u + '_g')(2 ** 31),
+                   lambda: (getattr(l, u + '_glob'), setattr(l, u + '_glob', v), getattr(l, u + '_glob'),
+                            setattr(l, u + '_glob', 5)),
+                   lambda: setattr(l, u + '_glob', hi + 1),
+                   lambda: sorted(n for n in dir(l) if not n.startswith('_'))):
+            try:
+                out.append(('ok', fn()))
+            except Exception as e:
+                out.append(('exc', type(e).__name__))
+        return out
+    return how, early, cdef, src, observe
+
+
+def run_history(rep, case, wd):
+    """History / entry-point classes of verify(): an earlier verify() of the same
+    source with another cdef in the same tmpdir, a later one that differs only in
+    define_macros=, a repeated verify() of identical inputs from a new FFI (served
+    from the compiled module already in tmpdir), and modulename= / tag=."""
+    import importlib
+    from cffi import FFI
+    seed = case['seed']
+    how, early, cdef, src, observe = history(seed)
+    alt = {'define_macros': [('C33ALT', '1')]}
+    rnd = random.Random(seed ^ 0x99)
+    tdir = os.path.join(wd, 'hist_%s' % case['tag'])
+    os.makedirs(tdir, exist_ok=True)
+
+    def sofiles():
+        return sorted((n, os.stat(os.path.join(tdir, n)).st_mtime_ns) for n in os.listdir(tdir)
+                      if n.endswith('.so'))
+    ref = {}
+    try:
+        for cfg, kw in (('plain', {}), ('define_macros', alt)):
+            f0 = FFI()
+            f0.cdef(cdef)
+            name = '_c33h_%s_%s_%d' % (cfg, case['tag'], seed % 100000)
+            f0.set_source(name, src, **kw)
+            f0.compile(tmpdir=wd, verbose=False)
+            m = importlib.import_module(name)
+            ref[cfg] = observe(m.ffi, m.lib)
+    except Exception:
+        import traceback
+        rep.bad('history-build-raised:set_source', traceback.format_exc()[-1200:], seed)
+        return
+    # one engine per case (each verify() build costs seconds); both over a run
+    engines = (('verify_cpy', {}), ('verify_gen', {'force_generic_engine': True}))
+    for eng, ekw in (engines[int(case['tag']) % 2],):
+        entry = rnd.choice(['modulename', 'tag'])
+        steps = [('earlier-cdef:' + how, early, {}, None),
+                 ('after-earlier-cdef', cdef, {}, 'plain'),
+                 ('after-same-inputs-without-define_macros', cdef, alt, 'define_macros'),
+                 ('repeated-identical-inputs', cdef, {}, 'plain'),
+                 ('repeated-identical-inputs-define_macros', cdef, alt, 'define_macros'),
+                 (entry, cdef, {'modulename': '_c33m_%s_%s_%d' % (eng, case['tag'], seed % 100000)}
+                  if entry == 'modulename' else {'tag': 'c33t%s' % case['tag']}, 'plain')]
+        for step, cd, kw, cfg in steps:
+            before = sofiles()
+            try:
+                f = FFI()
+                f.cdef(cd)
+                kw = dict(kw)
+                kw.update(ekw)
+                lib = f.verify(src, tmpdir=tdir, **kw)
+                got = observe(f, lib) if cfg else None
+            except Exception:
+                import traceback
+                rep.bad('history-build-raised:%s:%s' % (step.split(':')[0], eng),
+                        'earlier cdef variant %s\n%s' % (how, traceback.format_exc()[-1200:]), seed)
+                break
+            rep.stat('history_verify_' + step.split(':')[0])
+            if step.startswith('repeated') and sofiles() == before:
+                rep.stat('history_served_from_compiled_module_in_tmpdir')
+            if cfg is None:
+                rep.stat('history_earlier_cdef_' + how)
+                continue
+            rep.case(('history', eng, step, repr(ref[cfg])[:200]),
+                     sample={'history_step': step, 'engine': eng, 'set_source': repr(ref[cfg])[:120]})
+            if got != ref[cfg]:
+                diff = [(i, a, b) for i, (a, b) in enumerate(zip(ref[cfg], got)) if a != b]
+                rep.bad('history-differs:%s:%s' % (step, eng),
+                        'verify() step %r (earlier cdef variant %s): observation index, set_source, %s: %r'
+                        % (step, how, eng, diff[:4]), seed)
+
+
 def generate(ctx):
     rng = ctx.rng('gen')
     n = ctx.scale(8, 120)
@@ -234,7 +626,14 @@ def child_setup(setup, wd):
 
 
 def bad_args(rnd, T):
-    return rnd.choice([2 ** 70, -2 ** 70, 'str', None, 1.5 if T not in ('double', 'float') else 'x'])
+    c = [2 ** 70, -2 ** 70, 'str', None, 1.5 if T not in ('double', 'float') else 'x']
+    if T in c12.INT_RANGE:          # just outside the range, on both sides
+        size, signed = c12.INT_RANGE[T]
+        lo, hi = (-(1 << (8 * size - 1)), (1 << (8 * size - 1)) - 1) if signed else (0, (1 << 8 * size) - 1)
+        c += [hi + 1, lo - 1, hi + 1, lo - 1]
+    elif T == '_Bool':
+        c += [2, -1]
+    return rnd.choice(c)
 
 
 def outcome(f, args):
@@ -251,12 +650,15 @@ def child_case(st, case):
     rep = core.ChildRep()
     items = c12.gen_source(case['seed'])
     xcdef, xsrc, probes = extras(case['seed'])
-    src = c12.c_source(items) + xsrc
-    cdef = c12.cdef_text(items) + xcdef
+    ycdef, pcdef, ysrc, probes2 = extras2(case['seed'])
+    probes = probes + probes2
+    src = c12.c_source(items) + xsrc + ysrc
+    cdef = c12.cdef_text(items) + xcdef + ycdef
     wd = st['wd']
     libs = {}
     try:
         f0 = FFI()
+        f0.cdef(pcdef, packed=True)
         f0.cdef(cdef)
         name = '_c33s_%s_%d' % (case['tag'], case['seed'] % 100000)
         f0.set_source(name, src)
@@ -265,6 +667,7 @@ def child_case(st, case):
         libs['set_source'] = (m.ffi, m.lib)
         for eng, kw in (('verify_cpy', {}), ('verify_gen', {'force_generic_engine': True})):
             f = FFI()
+            f.cdef(pcdef, packed=True)
             f.cdef(cdef)
             lib = f.verify(src, tmpdir=os.path.join(wd, '%s_%s' % (eng, case['tag'])), **kw)
             libs[eng] = (f, lib)
@@ -291,7 +694,8 @@ def child_case(st, case):
             for k, (f, l) in libs.items():
                 try:
                     res[k] = ('ok', f.sizeof(tag), f.alignof(tag),
-                              [(fn, f.offsetof(tag, fn)) for fn, _, _ in it['fields']])
+                              [(fn, f.offsetof(tag, fn)) for fn, _, _ in it['fields']],
+                              [(n_, fl.offset, fl.type.cname, fl.bitsize) for n_, fl in f.typeof(tag).fields])
                 except Exception as e:
                     res[k] = ('exc', type(e).__name__, str(e)[:100])
             rep.case((kind, c12.render_struct(it['name'], it['fields'])),
@@ -323,6 +727,8 @@ def child_case(st, case):
                     if args:
                         j = rnd.randrange(len(args))
                         args[j] = bad_args(rnd, it['args'][j])
+                        if isinstance(args[j], int) and not isinstance(args[j], bool) and abs(args[j]) < 2 ** 65:
+                            rep.stat('function_calls_arg_just_out_of_range')
                     else:
                         args = [1]      # too many arguments
                 res = {}
@@ -365,6 +771,7 @@ def child_case(st, case):
         rep.stat('extra_probes')
         rep.stat('extra_probe_' + ('ok' if res['set_source'][0] == 'ok' else 'raises'))
         compare(rep, res, 'probe %s' % label, 'extra:' + label, case['seed'])
+    run_history(rep, case, wd)
     return rep.result()
 
 
